@@ -52,10 +52,16 @@ fn owns(prop: &str, class: &str) -> bool {
 }
 
 pub fn exec_on(store: Shared, started: bool, ops: &[Op], sources: &[Shared], sink: &Policy, start_pos: u64, final_finish: bool) -> (ExecOut, IoH) {
-    let sink_io = ioh(sink.clone());
-    let env = ExecEnv { store, start_pos, sink_io: sink_io.clone(), sources: sources.to_vec(), src_io: ioh(Policy::Pure), stop_on_err: false, final_finish, pre_started: started };
-    let out = run_program(ops, &env);
+    let (out, sink_io, _) = exec_full(store, started, ops, sources, sink, &Policy::Pure, start_pos, final_finish);
     (out, sink_io)
+}
+
+pub fn exec_full(store: Shared, started: bool, ops: &[Op], sources: &[Shared], sink: &Policy, src: &Policy, start_pos: u64, final_finish: bool) -> (ExecOut, IoH, IoH) {
+    let sink_io = ioh(sink.clone());
+    let src_io = ioh(src.clone());
+    let env = ExecEnv { store, start_pos, sink_io: sink_io.clone(), sources: sources.to_vec(), src_io: src_io.clone(), stop_on_err: false, final_finish, pre_started: started };
+    let out = run_program(ops, &env);
+    (out, sink_io, src_io)
 }
 
 pub fn exec(ops: &[Op], sources: &[Shared], sink: &Policy, start_pos: u64, final_finish: bool, _stop: bool) -> (Shared, ExecOut, IoH) {
